@@ -84,7 +84,7 @@ def c06(ctx):
 
 # (W, S, MaxSyms, PSet)
 RANGE_QUICK = [(2, 4, 4, "{1,2}"), (2, 6, 3, "{1,2}"), (2, 6, 5, "{2}"), (3, 6, 2, "{1,2,3}"), (3, 6, 3, "{2}")]
-RANGE_THOROUGH = [(2, 4, 5, "{1,2}"), (2, 6, 5, "{1,2}"), (2, 8, 4, "{1,2}"), (3, 6, 3, "{1,2,3}"), (3, 9, 3, "{2,3}"), (4, 8, 3, "{2,4}"), (4, 8, 2, "{1,2,3,4}")]
+RANGE_THOROUGH = [(2, 4, 5, "{1,2}"), (2, 6, 5, "{1,2}"), (2, 8, 4, "{1,2}"), (3, 6, 3, "{1,2,3}"), (3, 9, 3, "{2,3}"), (4, 8, 2, "{2,4}"), (4, 8, 3, "{2}"), (4, 8, 2, "{1,2,3,4}")]
 
 
 def range_hists(ctx, invs, mode, widths=None, spec_violation_is=None):
